@@ -77,6 +77,21 @@ Definition cutout (im : img) (ny nx : nat) (yp xp : Z) : img :=
   tab ny nx (fun y x => iget im (yp - Z.of_nat (ny / 2) + Z.of_nat y)
                                 (xp - Z.of_nat (nx / 2) + Z.of_nat x)).
 
+(* the branch structure of daofind_marginal_fit on the sums it has formed:
+   hsz = size/2, sg2 = sigma**2, n = hx_numer, dn = hx_denom, dxn = the numerator of dx,
+   dk2 = dkern_dx2_sum, ds = data_sum, ddx = data_dx_sum  ->  (dx, hx) *)
+Definition marginal_of (hsz sg2 n dn dxn dk2 ds ddx : Q) : fval * fval :=
+  if Qle_bool n 0 || Qle_bool dn 0                      (* mask1: hx, dx = NaN *)
+  then (NaN, NaN)
+  else
+    let hx := n / dn in
+    let dx0 := fdiv dxn (hx * dk2 / sg2) in
+    let m3 := Qeq_bool ds 0 in
+    let dx1 := if fabs_gt dx0 hsz                        (* mask2 *)
+               then (if m3 then Fin 0 else Fin (ddx / ds)) else dx0 in   (* mask4 / mask5 *)
+    let dx2 := if fabs_gt dx1 hsz then Fin 0 else dx1 in (* mask6 *)
+    (dx2, Fin hx).
+
 (* ================================================================== *)
 (* DAOStarFinder                                                        *)
 (* ================================================================== *)
@@ -159,13 +174,7 @@ Section DAO.
     Definition hsize : Q := qn size / 2.
     (* (dx, hx) of one source *)
     Definition marginal_fit : fval * fval :=
-      if mask1 then (NaN, NaN)
-      else
-        let m3 := Qeq_bool data_sum 0 in
-        let dx1 := if fabs_gt dx0 hsize
-                   then (if m3 then Fin 0 else Fin (data_dx_sum / data_sum)) else dx0 in
-        let dx2 := if fabs_gt dx1 hsize then Fin 0 else dx1 in
-        (dx2, Fin hxv).
+      marginal_of hsize sigma2 hx_numer hx_denom dx_numer dkern_dx2_sum data_sum data_dx_sum.
   End Fit.
 
   Definition dx_hx := marginal_fit false.
@@ -310,48 +319,75 @@ Fixpoint all3 {A B C} (f : A -> B -> C -> bool) (la : list A) (lb : list B) (lc 
   end.
 (* a comparison [v ? 0] or [|v| ? h] of the implementation is decided by rounding when the exact
    value lies within the error bound of the boundary *)
-Definition near (v bound scale : Q) : bool := Qle_bool (Qabs (v - bound)) (tol * scale).
+Definition near (v bound scale : Q) : bool :=
+  negb (Qeq_bool scale 0)                  (* all operands 0: the float result is exact *)
+  && Qle_bool (Qabs (v - bound)) (tol * scale).
+
+(* The DAOFIND check evaluates every sum ONCE (the kernel-only sums once per case) and feeds them to
+   the model's own branch function [marginal_of]; C14D_Proofs.dao_eval_is_model proves that the list
+   of values it compares is literally [dao_stats]. *)
+Definition kern_sums (ny nx : nat) (gk : img) (axis : bool) : Q * Q * Q * Q * Q * Q :=
+  (kern_sum ny nx gk axis, kern2_sum ny nx gk axis, dkern_dx_sum ny nx gk axis,
+   dkern_dx2_sum ny nx gk axis, kern_dkern_dx_sum ny nx gk axis, wt_sum ny nx axis).
+Definition data_sums (ny nx : nat) (gk d : img) (axis : bool) : Q * Q * Q * Q :=
+  (data_sum ny nx d axis, data_kern_sum ny nx gk d axis, data_dkern_dx_sum ny nx gk d axis,
+   data_dx_sum ny nx d axis).
+(* -> ((dx, hx), (scale of hx, scale of dx, a branch is decided by rounding), hx as a rational) *)
+Definition fit_eval (hsz sg2 sz : Q) (K : Q * Q * Q * Q * Q * Q) (D DA : Q * Q * Q * Q)
+    : (fval * fval) * (Q * Q * bool) * Q :=
+  let '(ks, k2, dks, dk2, kdk, ws) := K in
+  let '(ds, dkn, ddk, ddx) := D in
+  let '(dsA, dknA, _, _) := DA in
+  let n := dkn - ds * ks / ws in
+  let dn := k2 - ks * ks / ws in
+  let dxn := kdk - (ddk - dks * ds) in
+  let fit := marginal_of hsz sg2 n dn dxn dk2 ds ddx in
+  (* the error scales are computed on reduced copies (short numerals) *)
+  let n' := Qred n in
+  let dn' := Qred dn in
+  let nabs := Qred (dknA + dsA * ks / ws) in
+  let dabs := Qred (k2 + ks * ks / ws) in
+  let hx := Qred (n' / dn') in
+  let shx := Qred (nabs / Qabs dn' + Qabs n' * dabs / (dn' * dn') + Qabs hx) in
+  let aabs := Qred (sz * (k2 + dknA + ks * dsA)) in
+  let b := Qred (hx * dk2 / sg2) in
+  let dxq := Qred (dxn / b) in
+  let sdx := Qred (aabs / Qabs b + Qabs dxq * (shx / Qabs hx + 4) + sz) in
+  let amb := near n' 0 nabs || near dn' 0 dabs || (negb (Qeq_bool b 0) && near (Qabs dxq) hsz sdx) in
+  (fit, (shx, sdx, amb), hx).
 
 Section DaoCheck.
-  Variables (ny nx : nat) (mask : bimg) (gk : img) (s2x s2y : Q) (d c : img).
-  Let A := absimg d.
-  (* error scales of hx and dx for one axis; [amb] = a branch of the code is decided by rounding *)
-  Definition fit_scales (axis : bool) : Q * Q * bool :=
-    let sz := qn (size ny nx axis) in
-    let nabs := data_kern_sum ny nx gk A axis
-                + data_sum ny nx A axis * kern_sum ny nx gk axis / wt_sum ny nx axis in
-    let dabs := kern2_sum ny nx gk axis
-                + kern_sum ny nx gk axis * kern_sum ny nx gk axis / wt_sum ny nx axis in
-    let n := hx_numer ny nx gk d axis in
-    let dn := hx_denom ny nx gk axis in
-    let hx := hxv ny nx gk d axis in
-    let shx := nabs / Qabs dn + Qabs n * dabs / (dn * dn) + Qabs hx in
-    let aabs := sz * (kern2_sum ny nx gk axis + data_kern_sum ny nx gk A axis
-                      + kern_sum ny nx gk axis * data_sum ny nx A axis) in
-    let b := dx_denom ny nx gk s2x s2y d axis in
-    let dxq := dx_numer ny nx gk d axis / b in
-    let sdx := aabs / Qabs b + Qabs dxq * (shx / Qabs hx + 4) + sz in
-    let amb := near n 0 nabs || near dn 0 dabs
-               || (negb (Qeq_bool b 0) && near (Qabs dxq) (hsize ny nx axis) sdx) in
-    (shx, sdx, amb).
-  Definition dao_scales : list Q * bool :=
-    let '(shx, sdx, ax) := fit_scales false in
-    let '(shy, sdy, ay) := fit_scales true in
-    let hx := hxv ny nx gk d false in let hy := hxv ny nx gk d true in
-    let sr2 := 4 * (shx + shy) / Qabs (hx + hy) + 8 in
-    let ssharp := (Qabs (data_peak ny nx d)
+  Variables (ny nx : nat) (mask : bimg) (gk : img) (s2x s2y : Q).
+  Variables (Kx Ky : Q * Q * Q * Q * Q * Q).      (* kern_sums ... false / true *)
+  Variables (d c : img) (yp xp : Z).
+  (* -> (the model's statistics, their error scales, ambiguous) *)
+  Definition dao_eval : list fval * list Q * bool :=
+    let A := absimg d in
+    let '(fx, (shx, sdx, ax), hx) :=
+      fit_eval (hsize ny nx false) s2x (qn nx) Kx (data_sums ny nx gk d false) (data_sums ny nx gk A false) in
+    let '(fy, (shy, sdy, ay), hy) :=
+      fit_eval (hsize ny nx true) s2y (qn ny) Ky (data_sums ny nx gk d true) (data_sums ny nx gk A true) in
+    let r2 := match snd fx, snd fy with
+              | Fin h1, Fin h2 => fdiv (2 * (h1 - h2)) (h1 + h2)
+              | _, _ => NaN
+              end in
+    let sr2 := Qred (4 * (shx + shy) / Qabs (hx + hy) + 8) in
+    let ssharp := Qred ((Qabs (data_peak ny nx d)
                    + (isum (cutout_data_masked ny nx mask A) + Qabs (data_peak ny nx d))
-                     / (npixels ny nx mask - 1)) / Qabs (convdata_peak ny nx c) in
-    ([0; 0; 4; ssharp; 0; 0; sdx; shx; sdy; shy; sr2; sdx + 64; sdy + 64], ax || ay).
+                     / (npixels ny nx mask - 1)) / Qabs (convdata_peak ny nx c)) in
+    ([ Fin (data_peak ny nx d); Fin (convdata_peak ny nx c); roundness1 ny nx c;
+       sharpness ny nx mask d c; Fin (flux d); Fin (npix ny nx);
+       fst fx; snd fx; fst fy; snd fy; r2;
+       fshift (inject_Z xp) (fst fx); fshift (inject_Z yp) (fst fy) ],
+     [0; 0; 4; ssharp; 0; 0; sdx; shx; sdy; shy; sr2; sdx + 64; sdy + 64], ax || ay).
 End DaoCheck.
 
 (* indices 6.. (dx hx dy hy roundness2 xcentroid ycentroid) are not compared when ambiguous *)
-Definition dao_check_src ny nx mask gk s2x s2y im conv (s : Z * Z * list fval) : bool :=
+Definition dao_check_src ny nx mask gk s2x s2y Kx Ky im conv (s : Z * Z * list fval) : bool :=
   let '(yp, xp, impl) := s in
   let d := cutout im ny nx yp xp in
   let c := cutout conv ny nx yp xp in
-  let model := dao_stats ny nx mask gk s2x s2y im conv yp xp in
-  let '(scales, amb) := dao_scales ny nx mask gk s2x s2y d c in
+  let '(model, scales, amb) := dao_eval ny nx mask gk s2x s2y Kx Ky d c yp xp in
   if amb then all3 close (firstn 6 scales) (firstn 6 impl) (firstn 6 model)
               && (length impl =? length model)%nat
   else all3 close scales impl model.
@@ -405,7 +441,9 @@ Inductive case :=
 Definition check_case (cs : case) : bool :=
   match cs with
   | CDao ny nx mask gk s2x s2y im conv srcs =>
-      forallb (dao_check_src ny nx mask gk s2x s2y im conv) srcs
+      let Kx := kern_sums ny nx gk false in
+      let Ky := kern_sums ny nx gk true in
+      forallb (dao_check_src ny nx mask gk s2x s2y Kx Ky im conv) srcs
   | CIraf ny nx mask im conv srcs => forallb (iraf_check_src ny nx mask im conv) srcs
   | CSf ky kx im srcs => forallb (sf_check_src ky kx im) srcs
   end.
@@ -414,10 +452,12 @@ Definition check_case (cs : case) : bool :=
 Definition case_unambiguous (cs : case) : bool :=
   match cs with
   | CDao ny nx mask gk s2x s2y im conv srcs =>
+      let Kx := kern_sums ny nx gk false in
+      let Ky := kern_sums ny nx gk true in
       forallb (fun s : Z * Z * list fval =>
                  let '(yp, xp, _) := s in
-                 negb (snd (dao_scales ny nx mask gk s2x s2y (cutout im ny nx yp xp)
-                                       (cutout conv ny nx yp xp)))) srcs
+                 negb (snd (dao_eval ny nx mask gk s2x s2y Kx Ky (cutout im ny nx yp xp)
+                                     (cutout conv ny nx yp xp) yp xp))) srcs
   | _ => true
   end.
 
